@@ -16,6 +16,9 @@ Sub-checks
   server_sync       the server oracle on short runs of deferred-synchronisation integrators carrying 1000-3000 test
                     particles, with a client requesting continuously: synchronisation on the exit path of
                     integrate() and serialisation in the server thread are long enough to overlap.
+  server_mut        the server oracle on runs whose heartbeat modifies the simulation (mass transfer, momentum
+                    conserving kick pair, add+remove) with two writes and a short wait between them; the state of
+                    step boundary n is the state at the end of heartbeat n; client requests continuously.
   server_fd         the server thread must not touch descriptors of other threads: a client (100-300 requests of
                     several kinds) and a watcher thread own descriptors while the simulation integrates; an EBADF
                     on one of them means another thread closed it.
@@ -219,6 +222,49 @@ server_case = st.fixed_dictionaries({
     "usleep": st.sampled_from([300, 1000, 2000]),
     "requests": st.lists(st.tuples(S.floats(0.0, 12.0), st.integers(1, 3)), min_size=1, max_size=6),
 })
+
+def _safe(cfg):
+    """particles may be modified between steps only in safe mode"""
+    fam = cfg["family"]
+    if fam not in ("whfast", "saba"):
+        return cfg
+    sets = [x for x in cfg["set"] if not x[0].endswith("safe_mode") and not x[0].endswith("keep_unsynchronized")]
+    return dict(cfg, set=sets + [["ri_%s.safe_mode" % fam, 1]])
+
+
+# served runs whose heartbeat MODIFIES the simulation with a two-write update and a short wait in between
+server_mut_case = st.fixed_dictionaries({
+    "system": S.hierarchical_system(nmin=2, nmax=4),
+    "cfg": S.integrator_config(["whfast", "saba", "ias15", "leapfrog", "whfast"]).map(_safe),
+    "dt_frac": st.sampled_from([0.05, 0.02]),
+    "rand_seed": st.integers(1, 2 ** 31 - 1),
+    "nsteps": st.integers(6, 16),
+    "eft": st.sampled_from([0, 0, 1]),
+    "usleep": st.sampled_from([100, 300]),
+    "mutate": st.fixed_dictionaries({"kind": st.sampled_from(["mass", "kick", "addremove"]),
+                                     "wait_us": st.sampled_from([300, 600, 1000]),
+                                     "k": S.floats(1e-9, 1e-6)}),
+    "hammer": st.just(1), "requests": st.just([]),
+})
+
+
+def mutate(sim, mut, wait):
+    """what a user's heartbeat may do to its simulation between two steps: a two-write update"""
+    ps = sim.particles
+    if mut["kind"] == "mass":           # mass transfer, total mass conserved
+        d = ps[0].m * 2.0 ** -12
+        ps[0].m -= d
+        wait()
+        ps[1].m += d
+    elif mut["kind"] == "kick":         # momentum conserving pair of kicks
+        ps[0].vx += mut["k"] / ps[0].m
+        wait()
+        ps[1].vx -= mut["k"] / ps[1].m
+    else:                               # a massless tracer is added and taken out again
+        sim.add(m=0.0, x=3.0 * ps[sim.N - 1].x + 1.0, y=3.0 * ps[sim.N - 1].y, vx=0.0, vy=0.0)
+        wait()
+        sim.remove(sim.N - 1)
+
 
 # ---------------------------------------------------------------------------------------
 # building and running one program
@@ -760,11 +806,16 @@ def run_server(case, ctx):
     tmax = tmax_of(U)
     ucount = [0]
 
+    mut = case.get("mutate")
+    twin = [U]
+
     def ulimit(simp):
         ucount[0] += 1
         if ucount[0] > 4 * case["nsteps"] + 50:
-            U.stop()
-    U.heartbeat = ulimit            # counts steps only; never touches the state unless the step size collapses
+            twin[0].stop()
+        if mut and twin[0].steps_done > 0:
+            mutate(twin[0], mut, lambda: None)
+    U.heartbeat = ulimit            # counts steps (and applies the same updates as the served run's heartbeat)
     U.integrate(tmax, exact_finish_time=eft)
     if ucount[0] > 4 * case["nsteps"] + 50:
         ctx.skip("adaptive step size collapsed in the unserved twin (run does not end in bounded work)")
@@ -793,6 +844,11 @@ def run_server(case, ctx):
     log = {}            # (t bits, steps_done) -> stream recorded inside the step's critical section
 
     def hb(simp):
+        # the heartbeat before the first step runs outside the critical section (also on the unchanged tree):
+        # the simulation is only modified by the heartbeats that follow a step
+        if mut and S_.steps_done > 0:
+            mutate(S_, mut, lambda: time.sleep(mut["wait_us"] * 1e-6))
+        # the state of step boundary n is the state at the END of heartbeat n
         log[(rb.dbits(S_.t), S_.steps_done)] = rb.stream(S_)
 
     S_.heartbeat = hb
@@ -853,6 +909,7 @@ def run_server(case, ctx):
         perturb(0x5A)
         try:
             U2 = build_sim(prog)
+            twin[0] = U2
             U2.heartbeat = ulimit
             U2.integrate(tmax, exact_finish_time=eft)
             U2.usleep = case["usleep"]
@@ -917,7 +974,7 @@ def run_server(case, ctx):
         else:
             ctx.cls("after_end")
         # continue the snapshot to the end (once per case, for a response inside the run)
-        if 0 < R.steps_done < nfinal and not cont_done and key in log:
+        if 0 < R.steps_done < nfinal and not cont_done and key in log and not mut:
             cont_done = True
             C = rebound.Simulation(log[key])        # control: the run's own record of that boundary
             C.usleep = 0
@@ -936,6 +993,8 @@ def run_server(case, ctx):
                 ctx.cls("continued_bitwise")
     ctx.cls("family:" + case["cfg"]["integrator"])
     ctx.cls("eft%d" % eft)
+    if mut:
+        ctx.cls("mutate:" + mut["kind"])
     ctx.nontrivial(inside >= 1)
 
 
@@ -1053,6 +1112,7 @@ def subs(tier):
         Sub("threads_stress", run_threads, strategy=stress_case(), quick=32, thorough=240, shards_quick=4,
             shards_thorough=8),
         Sub("server", run_server, strategy=server_case, quick=320, thorough=4000, shards_quick=8),
+        Sub("server_mut", run_server, strategy=server_mut_case, quick=64, thorough=1200, shards_quick=8),
         Sub("server_fd", run_server_fd, strategy=server_fd_case, quick=64, thorough=1200, shards_quick=8),
         Sub("server_sync", run_server, strategy=server_sync_case, quick=40, thorough=600, shards_quick=8),
     ]
